@@ -1,17 +1,22 @@
 PROP = dict(
-    drivers=['Sauce'],
-        gens=['sauce'],
-        lake=['IcyVerif.Props.C11'],
+    drivers=['Sauce', 'SauceUni'],
+        gens=['sauce', 'codec', 'sauceuni'],
+        lake=['IcyVerif.Props.C11', 'IcyVerif.Props.C11Uni'],
         ns='IcyVerif.C11',
         theorems=['extract_total', 'header_len_le', 'from_bytes_split_total', 'write_outcome',
                   'extract_write', 'split_exact', 'load_ignores_sauce', 'set_sauce_defaults', 'loader_width',
                   'carry_texts', 'carry_texts_equal', 'carry_ansi', 'carry_ascii', 'carry_plain', 'carry_bin',
                   'width_round_trip', 'writers_covered',
                   'string_rt', 'string_rt_value', 'string_rt_exact', 'string_rt_equal', 'string_rt_nul',
-                  'string_read_total'],
+                  'string_read_total',
+                  'cp437_table_facts', 'from_char_exact', 'string_uni_rt', 'string_uni_rt_iff', 'string_uni_rt_nul', 'from_uni_value'],
         harness='c11',
         design='DESIGN.md §4 C11',
-        technique='Lean 4 proof over a byte-level model of SauceString, Buffer::write_sauce_info, SauceData::extract and the '
+        technique='STRINGS: string_uni_rt / string_uni_rt_iff state the field round trip on the Rust Strings the API accepts (lists of code '
+                  'points): from -> append_to -> read -> to_string gives the string back IFF it has at most LEN characters, all in the '
+                  'regenerated CP437 table (256 entries, Nodup kernel-checked by list traversal), and no trailing blank/NUL; every other '
+                  'character becomes `?`, longer strings are cut. '
+                  'Lean 4 proof over a byte-level model of SauceString, Buffer::write_sauce_info, SauceData::extract and the '
                   'SAUCE part of Buffer::from_bytes/set_sauce in which every data[a..b], data[i], usize subtraction and '
                   'assert is an explicit panic outcome: extract is total on all byte lists; for ALL contents and ALL '
                   'metadata extract(content ++ EOF ++ write) returns what the SAUCE variant can carry and a header length '
@@ -26,14 +31,16 @@ PROP = dict(
              'Buffer::to_bytes(save_sauce) + from_bytes for ans asc avt pcb bin xb tnd adf idf icy; picture with/without '
              'SAUCE; content + EOF + SAUCE splices; truncated/corrupted tails (suffixes, cut ends, wrong comment counts, '
              'single-byte corruptions, random 128-byte records starting with SAUCE behind arbitrary prefixes); SauceString '
-             'read/append/len/eq; a 2 GiB file. distinct_nontrivial = distinct inputs (metadata cases, files, strings)',
-        modelled='SauceString::{read, append_to, from (CP437 input), len, to_string, PartialEq}; Buffer::write_sauce_info (all '
+             'read/append/len/eq; SauceString::from / to_string on Rust STRINGS (ASCII, every CP437 character, characters outside '
+             'the table up to U+10FFFF, NULs and blanks at every position, exactly LEN / LEN+1 characters, a multi-byte character at the '
+             'cut) through from -> append_to -> read -> to_string for the field shapes 35/20/5 blank-padded and 64/22 NUL-padded; '
+             'a 2 GiB file. distinct_nontrivial = distinct inputs (metadata cases, files, strings)',
+        modelled='SauceString::{read, append_to, from (any Rust String: first-index search in CP437_TO_UNICODE, `?` substitution, cut at LEN characters), len, to_string (bytes -> characters through the table), PartialEq}; Buffer::write_sauce_info (all '
                  'arms, error cases, file_size, u16 casts); SauceData::extract (every index/slice/subtraction/assert as a '
                  'panic site, all error returns, per-type interpretation); Buffer::from_bytes length arithmetic and slice; '
                  'Buffer::set_sauce width/ice/font rule',
         not_modelled='chrono (date parser verdict is a parameter supplied by the harness from the implementation; Utc::now is '
-                     'an input); creation_time; CP437<->Unicode conversion of SauceString::from/to_string (the table is '
-                     'injective, checked by the harness) and its `?` substitution for non-CP437 characters; the format '
+                     'an input); creation_time; the format '
                      'loaders behind from_bytes (picture equality is checked by the oracle run only); get_font(0).unwrap() '
                      '(a buffer without font slot 0); calling SauceString::read twice on the same value',
         assumptions=['NaiveDateTime::parse_from_str only looks at the 8 date bytes (dateOk is a function of them)',
